@@ -10,6 +10,7 @@ from __future__ import annotations
 import inspect
 import itertools
 
+import copy
 import fiddle as fdl
 
 from vf import canon as C
@@ -42,7 +43,8 @@ ASSUMPTIONS = [
 ]
 MINIMUMS = {
     'quick': {'evaluations': 4000, 'invoked': 2500, 'must-refuse': 300, 'positional-involved': 2500,
-              'must-refuse:unset-required-positional-before-set': 100, 'dag_cases': 500},
+              'must-refuse:unset-required-positional-before-set': 100, 'dag_cases': 500,
+              'own_default_builds': 400, 'own_default_builds_after_deepcopy': 120},
     'thorough': {'evaluations': 1000},
 }
 
@@ -62,6 +64,8 @@ KIND_TARGETS = [
     (kinds.meth_instance2.apply, {'Meth.apply'}), (kinds.Meth.two_required, {'Meth.two_required'}),
     (kinds.meth_instance.two_required, {'Meth.two_required'}),
     (kinds.Meth.cmake, {'Meth.cmake'}), (kinds.MethSub.cmake, {'Meth.cmake'}),
+    # defaults that are identity-compared objects (a sentinel, a plain instance)
+    (kinds.iddef, {'iddef'}), (kinds.iddef_pos, {'iddef_pos'}), (kinds.iddef_pos, {'iddef_pos'}),
 ] + [(f, {f.__name__}) for f in sigs.WIDE] + [
     # function objects of one nested def / one lambda (one code object), different defaults
     (f, {'variant'}) for f in kinds.DEFAULT_VARIANTS] + [
@@ -76,6 +80,7 @@ def plan(tier):
                'n': 1} for i in range(16)]
     shards += [{'name': 'kinds', 'kind': 'kinds', 'n': 600}]
     shards += [{'name': 'transient', 'kind': 'transient', 'n': 600}]
+    shards += [{'name': 'owndef', 'kind': 'owndef', 'n': 700}]
     shards += [{'name': f'dag{i}', 'kind': 'dag', 'n': 120, 'start': i * 120} for i in range(8)]
   else:
     shards = [{'name': f'exh{i}', 'kind': 'exhaustive', 'mod': 32, 'rem': i, 'n': 1}
@@ -84,6 +89,8 @@ def plan(tier):
                for i in range(2)]
     shards += [{'name': f'kinds{i}', 'kind': 'kinds', 'n': 30000, 'start': i * 30000}
                for i in range(8)]
+    shards += [{'name': f'owndef{i}', 'kind': 'owndef', 'n': 30000, 'start': i * 30000}
+               for i in range(2)]
     shards += [{'name': f'dag{i}', 'kind': 'dag', 'n': 12000, 'start': i * 12000}
                for i in range(16)]
   return shards
@@ -195,9 +202,21 @@ def judge(cfg, m: M.ArgModel, vals: Values, fn, root_names, acc, desc, witness):
       exp = ('raise', 'direct-call-TypeError')
   else:
     exp = ('raise', 'unset-required-positional-before-set')
+  target = cfg
+  if vals.rng.random() < 0.2:
+    # the property holds for every configuration, also for a deep copy of one that has been
+    # used (read, built) before; unset parameters still get the callable's OWN default objects
+    try:
+      with rec.Trace():
+        fdl.build(cfg)
+    except Exception:  # pylint: disable=broad-except
+      pass
+    target = copy.deepcopy(cfg)
+    feat = feat + ':deep-copy-of-a-used-configuration'
+    acc.obs('built_from_deep_copy_of_used_configuration')
   with rec.Trace() as tr:
     try:
-      got = ('ok', fdl.build(cfg))
+      got = ('ok', fdl.build(target))
     except Exception as e:  # pylint: disable=broad-except
       got = ('raise', type(e).__name__)
   root_calls = [e for e in tr.calls() if e[2] in root_names]
@@ -403,6 +422,37 @@ def _exits(code=3):
   raise SystemExit(code)
 
 
+def probe_kwargs_named_like_positional_only(rng, acc):
+  """f(a, /, **vk) may be called as f(1, a=2): the keyword lands in **vk. The same call
+  configured: Config(f, 1, a=2)."""
+  cands = [f for f in sigs.ALL
+           if any(q.kind == q.POSITIONAL_ONLY for q in inspect.signature(f).parameters.values())
+           and any(q.kind == q.VAR_KEYWORD for q in inspect.signature(f).parameters.values())
+           and not any(q.kind == q.KEYWORD_ONLY and q.default is q.empty
+                       for q in inspect.signature(f).parameters.values())]
+  fn = rng.choice(cands)
+  ps = list(inspect.signature(fn).parameters.values())
+  po = [q for q in ps if q.kind == q.POSITIONAL_ONLY]
+  required = [q for q in ps if q.kind == q.POSITIONAL_OR_KEYWORD and q.default is q.empty]
+  args = [rec.Sentinel(k) for k in range(len(po))]
+  kw = {q.name: rec.Sentinel(50 + k) for k, q in enumerate(required)}
+  kw[rng.choice(po).name] = rec.Sentinel(99)
+  with rec.Trace():
+    exp = fn(*args, **kw)
+  w = {'fn': describe(fn), 'call': f'f(*{args!r}, **{kw!r})'}
+  acc.obs('kwargs_named_like_positional_only_probes')
+  try:
+    with rec.Trace():
+      got = fdl.build(fdl.Config(fn, *args, **kw))
+  except Exception as e:  # pylint: disable=broad-except
+    acc.violation('build-raises-on-valid-call:kwargs-name-equals-positional-only-parameter',
+                  repr(e)[:200], w)
+    return
+  if C.canon(exp, 'built') != C.canon(got, 'built'):
+    acc.violation('built-differs-from-direct-call:kwargs-name-equals-positional-only-parameter',
+                  f'build -> {safe_repr(got, 200)}; direct call -> {safe_repr(exp, 200)}', w)
+
+
 def run_kinds(spec, acc):
   for i, rng in acc.cases(spec):
     if i % 97 == 5:
@@ -414,6 +464,8 @@ def run_kinds(spec, acc):
         acc.obs('builds_interrupted_by_base_exception')
       except Exception:  # pylint: disable=broad-except
         pass      # judged by the builds that follow
+    if i % 97 == 11:
+      probe_kwargs_named_like_positional_only(rng, acc)
     if i < len(DIRECTED):
       fn, setpos, setko, va_len, extra, mode = DIRECTED[i]
       run_binding(rng, acc, fn, {fn.__name__}, set(setpos), list(setko), va_len, extra, mode)
@@ -450,6 +502,75 @@ def run_transient(spec, acc):
                 rng.choice(['ctor', 'edits']), nested=0.0)
     acc.obs('transient_callable_instances')
     del fn
+
+
+def run_own_defaults(spec, acc):
+  """Unset parameters receive the callable's OWN default objects (identity), whatever the
+  configuration went through before: read, built, copied, deep-copied. Callables whose defaults
+  are identity-compared objects (a sentinel, a plain instance, a shared list)."""
+  for i, rng in acc.cases(spec):
+    fn = rng.choice([kinds.iddef, kinds.iddef_pos, kinds.iddef_pos, kinds.mutdef])
+    sig = inspect.signature(fn)
+    ps = list(sig.parameters.values())
+    T = rng.choice([fdl.Config, fdl.Partial])
+    cfg = T(fn)
+    setp = {}
+    for j, q in enumerate(ps):
+      if q.kind == q.VAR_POSITIONAL:
+        if rng.random() < 0.6:
+          cfg[fdl.VARARGS:] = [rec.Sentinel(90 + k) for k in range(rng.randint(1, 2))]
+          setp['*'] = True
+        continue
+      if rng.random() < 0.35:
+        v = rec.Sentinel(j)
+        if q.kind == q.POSITIONAL_ONLY:
+          cfg[j] = v
+        else:
+          setattr(cfg, q.name, v)
+        setp[q.name] = v
+    history = []
+    for _ in range(rng.randint(0, 3)):
+      step = rng.choice(['view', 'build', 'copy', 'deepcopy', 'index'])
+      history.append(step)
+      try:
+        if step == 'view':
+          list(cfg[:])
+        elif step == 'build':
+          with rec.Trace():
+            r0 = fdl.build(cfg)
+            if T is fdl.Partial:
+              r0()
+        elif step == 'copy':
+          cfg = copy.copy(cfg)
+        elif step == 'deepcopy':
+          cfg = copy.deepcopy(cfg)
+        else:
+          cfg[0]   # pylint: disable=pointless-statement
+      except Exception:  # pylint: disable=broad-except
+        pass
+    w = {'fn': describe(fn), 'type': T.__name__, 'set': sorted(map(str, setp)), 'history': history}
+    try:
+      with rec.Trace():
+        r = fdl.build(cfg)
+        if T is fdl.Partial:
+          r = r()
+    except Exception as e:  # pylint: disable=broad-except
+      acc.violation(f'own-defaults:build-raises:{type(e).__name__}', repr(e)[:200], w)
+      continue
+    acc.case((describe(fn), T.__name__, tuple(sorted(map(str, setp))), tuple(history)), True)
+    acc.obs('own_default_builds')
+    if 'deepcopy' in history:
+      acc.obs('own_default_builds_after_deepcopy')
+    for q in ps:
+      if q.kind in (q.VAR_POSITIONAL, q.VAR_KEYWORD) or q.name in setp:
+        continue
+      seen = r.bound.get(q.name, rec)
+      if seen is not q.default:
+        acc.violation('unset-parameter-did-not-get-the-callables-own-default-object:' +
+                      ('after-deepcopy' if 'deepcopy' in history else 'other'),
+                      f'parameter {q.name}: callable saw {safe_repr(seen, 80)} (id {id(seen)}), its '
+                      f'default is {safe_repr(q.default, 80)} (id {id(q.default)})', w)
+        break
 
 
 def run_dag(spec, acc):
@@ -496,6 +617,8 @@ def run_shard(spec, seed, acc):
     run_dag(spec, acc)
   elif kind == 'kinds':
     run_kinds(spec, acc)
+  elif kind == 'owndef':
+    run_own_defaults(spec, acc)
   else:
     for _, rng in acc.cases(spec):
       if kind == 'lattice':
